@@ -177,6 +177,7 @@ class Interp:
                       fdef=None, closure_env=None):
         """Symbolically execute a function body. Returns list of Outcome (return/raise)."""
         fdef = fdef or self.find_function(module, qualname)
+        fdef = self._degenerate(fdef)
         st = state
         saved_env = st.env
         env = dict(closure_env) if closure_env else {}
@@ -247,6 +248,55 @@ class Interp:
             if env is not None and name in env:
                 return env[name]
         return default
+
+    def _degenerate(self, fdef):
+        """A generator function (plain `yield <expr>` statements, no send/return value) is executed eagerly: the yielded values
+        are collected, in order, into the list the call returns.  Callers iterate it or wrap it in list(...): same elements, same
+        order; only laziness differs, which is unobservable for side-effect-free bodies (assumed: stated in A4)."""
+        if not any(isinstance(n, (ast.Yield, ast.YieldFrom)) for n in ast.walk(fdef)):
+            return fdef
+        cache = self.__dict__.setdefault("_gen_cache", {})
+        if id(fdef) in cache:
+            return cache[id(fdef)]
+        import copy
+
+        class T(ast.NodeTransformer):
+            ok = True
+
+            def visit_Expr(self, node):
+                if isinstance(node.value, ast.Yield) and node.value.value is not None:
+                    call = ast.Call(func=ast.Attribute(value=ast.Name(id="__gen__", ctx=ast.Load()), attr="append", ctx=ast.Load()),
+                                    args=[node.value.value], keywords=[])
+                    return ast.copy_location(ast.Expr(value=ast.copy_location(call, node)), node)
+                if isinstance(node.value, (ast.Yield, ast.YieldFrom)):
+                    T.ok = False
+                return node
+
+            def visit_FunctionDef(self, node):
+                if node is not new:
+                    return node            # nested definitions keep their own yields
+                self.generic_visit(node)
+                return node
+        new = copy.deepcopy(fdef)
+        T.ok = True
+        T().visit(new)
+        if not T.ok or any(isinstance(n, (ast.Yield, ast.YieldFrom)) for n in ast.walk(new)) or \
+                any(isinstance(n, ast.Return) and n.value is not None for n in ast.walk(new)):
+            cache[id(fdef)] = fdef
+            return fdef
+        init = ast.Assign(targets=[ast.Name(id="__gen__", ctx=ast.Store())], value=ast.List(elts=[], ctx=ast.Load()))
+        ret = ast.Return(value=ast.Name(id="__gen__", ctx=ast.Load()))
+        for n in (init, ret):
+            ast.copy_location(n, fdef.body[0])
+            ast.fix_missing_locations(n)
+        # bare `return` inside a generator ends it: return what was collected so far
+        for n in ast.walk(new):
+            if isinstance(n, ast.Return) and n.value is None:
+                n.value = ast.copy_location(ast.Name(id="__gen__", ctx=ast.Load()), n)
+        new.body = [init] + new.body + [ret]
+        ast.fix_missing_locations(new)
+        cache[id(fdef)] = new
+        return new
 
     # ------------------------------------------------------------------ statements
     def exec_block(self, stmts, state, module):
